@@ -630,6 +630,12 @@ func partA(r *rand.Rand, n int) {
 		}
 		emit("class", zs(int64(m.ApiKey())), classOf(m), f)
 	}
+	// the record format Prepare chooses for each Produce version
+	for v := int16(0); v <= 9 && n > 0; v++ {
+		q := produceReq([]tp{{topic: "t", parts: []int32{0}}})
+		q.Prepare(v)
+		emit("prep", zs(int64(v)), zs(int64(q.Topics[0].Partitions[0].RecordSet.Version)), fmt.Sprintf("produce-v%d", v))
+	}
 	// SelectVersion
 	for i := 0; i < 2*n; i++ {
 		k := protocol.ApiKey(r.Intn(52) - 1)
@@ -960,10 +966,20 @@ func main() {
 	out = bufio.NewWriterSize(os.Stdout, 1<<20)
 	defer out.Flush()
 	partA(r, *count)
+	// breakers: after 3 scenarios of a family exceeded their bound (a refresh that never comes)
+	// the rest of the run is emitted as NOT-RUN; the check has its failing cases by then
 	for i := 0; i < *e2e; i++ {
+		if e2eSlow >= 3 {
+			emit("notrun", fmt.Sprintf("e2e %x", i), "NOT-RUN", "breaker")
+			continue
+		}
 		runE2E(r, i)
 	}
-	for i := 0; i < *rec && frozenSeen < 3; i++ { // each frozen pool costs a 3s watchdog
+	for i := 0; i < *rec; i++ {
+		if e2eSlow >= 3 || frozenSeen >= 3 { // each frozen pool costs its whole bound
+			emit("notrun", fmt.Sprintf("rec %x", i), "NOT-RUN", "breaker")
+			continue
+		}
 		runRecovery(r, i)
 	}
 }
